@@ -9,12 +9,14 @@ import Driver.C08Mon
 import Driver.C10Mon
 import Driver.C15Mon
 import Driver.C06Mon
+import Driver.C17Mon
 open Kv
 
 structure MState where
   c04 : Drv.Flow.MonSt := {}
   c07 : Drv.Flow.MonSt := {}
   c08 : C08.MonState := {}
+  c17 : Drv.C17.MonSt := {}
   deriving Inhabited
 
 /-- monitor-only driver: imports nothing generated, so it builds whatever the source looks like -/
@@ -31,6 +33,7 @@ def dispatchMon (st : MState) (prop : String) (l : Line) : MState × String :=
   | "C10" => (st, Drv.C10.step l)
   | "C15" => (st, Drv.C15.stepMon l)
   | "C06" => (st, Drv.C06.step l)
+  | "C17" => let (s, r) := Drv.C17.stepMon st.c17 l; ({ st with c17 := s }, r)
   | _ => (st, "bad-op")
 
 def main : IO Unit := driverMain dispatchMon {}
